@@ -29,6 +29,7 @@ import Dawgs.Proofs.C01With
 import Dawgs.Proofs.C01WithHop
 import Dawgs.Proofs.C01Order
 import Dawgs.Proofs.C01Distinct
+import Dawgs.Proofs.C01Cross
 namespace Dawgs.C01.Props
 open Dawgs Dawgs.Sql Dawgs.C01.Proofs
 
@@ -626,6 +627,63 @@ theorem tr_total_S1d (km : KindMap) (g : Graph) (hok : GraphOK km g) (s : S1d.Qu
 def exDistQ : S1d.Query := ⟨⟨"n", ["K"], some (.propEqInt false "a" 1), [.prop "name" none, .id none], none⟩⟩
 example : (ofCyDistinct exDistQ.toCy == some exDistQ) = true := by decide +kernel
 example : (exDistQ.tr [("K", 1)]).isSome = true := by decide +kernel
+
+/-! ### stage S2x: a hop whose WHERE compares a property of `a` with a property of `b` — `tr10F`. jsonb `=` / `<>` of the stored values and
+openCypher's `=` / `<>` coincide when those values are scalars (`CrossScalar`) -/
+
+theorem ofCyCross_sound (q : Cy.Query) (s : S2x.Query) (h : ofCyCross q = some s) : s.toCy = q := (Proofs.ofCyCross_sound q s h).1
+
+theorem crossScalar_of_check (g : Graph) (q : S2x.Query) (h : q.keys.all (scalarKeyB g) = true) : CrossScalar q g.nodes :=
+  crossScalarB_sound g q h
+
+theorem tr10_some (flipOf : S2.Query → Bool) (flipCh : Ch.Query → Bool) (flipN : S2n.Query → Bool) (flipX : S2x.Query → Bool) (fast prune push : Bool)
+    (km : KindMap) (q : Cy.Query) (st : Stmt) (ps : List (String × Val)) (h : tr10F flipOf flipCh flipN flipX fast prune push km q = some (st, ps)) :
+    (ofCyCross q = none ∧ tr9F flipOf flipCh flipN fast prune push km q = some (st, ps)) ∨
+    (∃ s : S2x.Query, ofCyCross q = some s ∧ s.toCy = q ∧ s.stmtWith km (flipX s) prune = some st ∧ ps = []) := by
+  unfold tr10F at h
+  cases ho : ofCyCross q with
+  | none => rw [ho] at h; exact Or.inl ⟨rfl, h⟩
+  | some s =>
+    rw [ho] at h
+    simp only [Option.map_eq_some_iff] at h
+    obtain ⟨st', hst, heq⟩ := h
+    cases heq
+    exact Or.inr ⟨s, rfl, ofCyCross_sound q s ho, hst, rfl⟩
+
+/-- `tr_sound_S2x`: MATCH (a[:K…])-[r[:T|…]]->(b[:K…]) WHERE c1 AND … AND cn RETURN items, every ci a single-variable S1 predicate or
+`x.k = y.k'` / `x.k <> y.k'` with {x, y} = {a, b}, at least one of the latter — for every graph with `GraphOK2` in which the compared property
+keys hold JSON scalars (string, number, boolean) or are absent on every node (`CrossScalar`; outside it the statement compares arrays / objects
+as jsonb where the reference semantics compares lists element-wise with null propagation and leaves map equality undefined), both join orders,
+pruned or complete frame: the reference semantics answers, and whenever the statement yields a table the client-visible rows are a PERMUTATION
+of the reference rows (a bag, as in stage S2b) -/
+theorem tr_sound_S2x (km : KindMap) (g : Graph) (hok : GraphOK2 km g) (s : S2x.Query) (hS : CrossScalar s g.nodes) (flip prune : Bool) (st : Stmt)
+    (h : s.stmtWith km flip prune = some st) :
+    ∃ r, Cy.eval .none g s.toCy = .ok r ∧
+      ∀ t, Sql.eval (encode km g) st [] = .ok t → (sqlRows t).Perm (cyRows g km r) := by
+  obtain ⟨r, names, rows, hcy, hsql, hperm⟩ := s2x_sound km g hok s hS flip prune st h
+  refine ⟨r, hcy, fun t ht => ?_⟩
+  rcases hsql with hsql | ⟨w, hsql⟩
+  · rw [hsql] at ht; cases ht; exact hperm
+  · rw [hsql] at ht; cases ht
+
+/-- the statement never ends in an SQL run-time / type error of the model -/
+theorem tr_noerr_S2x (km : KindMap) (g : Graph) (hok : GraphOK2 km g) (s : S2x.Query) (hS : CrossScalar s g.nodes) (flip prune : Bool) (st : Stmt)
+    (h : s.stmtWith km flip prune = some st) :
+    (∀ m, Sql.eval (encode km g) st [] ≠ .error (.runtime m)) ∧ (∀ m, Sql.eval (encode km g) st [] ≠ .error (.typing m)) := by
+  obtain ⟨r, names, rows, _, hsql, _⟩ := s2x_sound km g hok s hS flip prune st h
+  refine ⟨fun m hm => ?_, fun m hm => ?_⟩
+  · rcases hsql with hsql | ⟨w, hsql⟩
+    · rw [hsql] at hm; cases hm
+    · rw [hsql] at hm; cases hm
+  · rcases hsql with hsql | ⟨w, hsql⟩
+    · rw [hsql] at hm; cases hm
+    · rw [hsql] at hm; cases hm
+
+def exCrossQ : S2x.Query := ⟨"a", "r", "b", ["K"], [], [], [.two ⟨false, .a, "x", .b, "y"⟩, .one .b (.propEqInt false "a" 1), .two ⟨true, .b, "x", .a, "x"⟩],
+  [.ent .r none, .prop .a "name" none]⟩
+example : (ofCyCross exCrossQ.toCy == some exCrossQ) = true := by decide +kernel
+example : (exCrossQ.stmtWith [("K", 1)] true true).isSome = true := by decide +kernel
+example : (exCrossQ.stmtWith [("K", 1)] false false).isSome = true := by decide +kernel
 
 theorem ofCyCount2_sound (q : Cy.Query) (s : S2n.Query) (h : ofCyCount2 q = some s) : s.toCy = q := Proofs.ofCyCount2_sound q s h
 
